@@ -49,6 +49,9 @@ func RandomString(r *mon.Rng) string {
 func RandomInteger(r *mon.Rng) string {
 	switch r.Intn(5) {
 	case 0:
+		if r.Chance(1, 4) {
+			return "-0"
+		}
 		return "0"
 	case 1:
 		return strconv.Itoa(r.Intn(10))
@@ -61,6 +64,9 @@ func RandomInteger(r *mon.Rng) string {
 }
 
 func RandomFloat(r *mon.Rng) string {
+	if r.Chance(1, 16) {
+		return mon.Pick(r, []string{"0.0", "-0.0", "-0.00", "0.50", "-0.5"})
+	}
 	s := strconv.Itoa(r.Intn(100)) + "." + strconv.Itoa(r.Intn(1000))
 	if r.Chance(1, 4) {
 		s = "-" + s
